@@ -5,7 +5,8 @@ import json
 FWD = {("GT", "AG"), ("GC", "AG"), ("AT", "AC")}
 REV = {("CT", "AC"), ("CT", "GC"), ("GT", "AT")}
 PAIRS = [("GT", "AG"), ("GC", "AG"), ("AT", "AC"), ("CT", "AC"), ("CT", "GC"), ("GT", "AT"), ("AA", "TT"), ("GT", "AC"), ("CT", "AG")]
-INTRONS = [(101, 200), (301, 420), (501, 640), (701, 799), (151, 420)]     # fixed geometry, contents are drawn
+# fixed geometry, contents are drawn; (200, 290) starts where (101, 200) ends and (420, 480) where (301, 420) ends
+INTRONS = [(101, 200), (301, 420), (501, 640), (701, 799), (151, 420), (200, 290), (420, 480)]
 
 
 def build_sequence(pair_idx, filler):
